@@ -10,18 +10,37 @@ open Cuckoo
 variable {κ ν : Type}
 
 /-- stripe of bucket `b` has not been migrated yet -/
-def Table.unmig (c : Cfg κ) (t : Table κ ν) (b : Nat) : Prop :=
-  ∃ lk, t.locks[c.lockInd b]? = some lk ∧ lk.migrated = false
+def Table.unmigB (c : Cfg κ) (t : Table κ ν) (b : Nat) : Bool :=
+  match t.locks[c.lockInd b]? with
+  | some lk => !lk.migrated
+  | none => false
 
-/-- a slot of the *live view*: any cell of the current array, or a cell of the old array whose stripe
-has not been migrated -/
-def Table.Live (c : Cfg κ) (t : Table κ ν) (sl : Slot κ ν) : Prop :=
-  (∃ b s, t.cur.get c.S b s = some sl) ∨
-  (∃ o b s, t.old = some o ∧ o.get c.S b s = some sl ∧ t.unmig c b)
+/-- a position of the *live view*: a cell of the current array, or a cell of the old array -/
+inductive Loc
+  | cur (b s : Nat)
+  | old (b s : Nat)
+deriving DecidableEq, Repr
 
-/-- the table represents the map `m` -/
-def Rel (c : Cfg κ) (t : Table κ ν) (m : κ → Option ν) : Prop :=
-  ∀ k v, m k = some v ↔ ∃ tag, t.Live c ⟨tag, k, v⟩
+/-- content of a live position: any cell of the current array; a cell of the old array only while its
+stripe has not been migrated -/
+def Table.at (c : Cfg κ) (t : Table κ ν) : Loc → Option (Slot κ ν)
+  | .cur b s => t.cur.get c.S b s
+  | .old b s =>
+    match t.old with
+    | some o => if t.unmigB c b then o.get c.S b s else none
+    | none => none
+
+def Table.Live (c : Cfg κ) (t : Table κ ν) (sl : Slot κ ν) : Prop := ∃ p, t.at c p = some sl
+
+/-- sum of the per-stripe element counters -/
+def Table.sumCnt (t : Table κ ν) : Int := t.locks.foldl (fun s l => s + l.cnt) (0 : Int)
+
+/-- the table represents the association list `m` (keys unique): same pairs, and the counters sum to
+its length -/
+structure Rel (c : Cfg κ) (t : Table κ ν) (m : List (κ × ν)) : Prop where
+  pairs : ∀ k v, (k, v) ∈ m ↔ ∃ tag, t.Live c ⟨tag, k, v⟩
+  nodup : (m.map Prod.fst).Nodup
+  count : t.sumCnt = (m.length : Int)
 
 /-- a store is well formed for hashpower `hp`: right size, every element in one of its two candidate
 buckets with its own tag -/
@@ -33,7 +52,7 @@ structure Store.WF (c : Cfg κ) (st : Store κ ν) : Prop where
 /-- number of un-migrated stripes -/
 def Table.nUnmig (t : Table κ ν) : Nat := (t.locks.toList.filter (fun l => !l.migrated)).length
 
-/-- number of live elements -/
+/-- number of live elements (executable; used by `checkInv` only) -/
 def Table.liveCount (c : Cfg κ) (t : Table κ ν) : Nat :=
   t.cur.count +
   match t.old with
@@ -56,14 +75,9 @@ structure Inv (c : Cfg κ) (t : Table κ ν) : Prop where
   rem_eq : t.rem = t.nUnmig
   pending : 0 < t.rem → ∃ o, t.old = some o ∧ o.WF c ∧ o.hp + 1 = t.hp ∧ c.M ≤ 2 ^ o.hp ∧ t.locks.size = c.M
   /-- I4: buckets of un-migrated stripes are still empty in the current array -/
-  unmig_empty : ∀ b s, t.unmig c b → t.cur.get c.S b s = none
-  /-- I5: keys are unique over the live view -/
-  uniq : ∀ sl sl', t.Live c sl → t.Live c sl' → sl.key = sl'.key → sl = sl'
-  /-- and no cell is shared: two distinct positions of the current array hold distinct keys -/
-  uniq_pos : ∀ b s b' s' sl sl', t.cur.get c.S b s = some sl → t.cur.get c.S b' s' = some sl' →
-    sl.key = sl'.key → b = b' ∧ s = s'
-  /-- I6: the counters sum to the number of live elements -/
-  count : t.locks.foldl (fun s l => s + l.cnt) (0 : Int) = (t.liveCount c : Int)
+  unmig_empty : ∀ b s, t.unmigB c b = true → t.cur.get c.S b s = none
+  /-- I5: every key occurs at exactly one live position -/
+  uniq : ∀ p p' sl sl', t.at c p = some sl → t.at c p' = some sl' → sl.key = sl'.key → p = p'
   /-- I7: the hashpower respects the configured maximum -/
   limit : t.mhp = noMaxHp ∨ t.hp ≤ t.mhp
 
@@ -114,7 +128,7 @@ def Table.checkInv [DecidableEq κ] (c : Cfg κ) (t : Table κ ν) : List String
         | some _, none => false
         | none, _ => true) "unmig_empty" ++
   bad (nodupB (t.liveKeys c)) "uniq" ++
-  bad (t.locks.foldl (fun s l => s + l.cnt) (0 : Int) == (t.liveCount c : Int)) "count" ++
+  bad (t.sumCnt == (t.liveCount c : Int)) "count" ++
   bad (t.mhp == noMaxHp || t.hp ≤ t.mhp) "limit"
 
 end Cuckoo.Model
